@@ -10,6 +10,10 @@ listing as a text stub) on one representative per class of input, whatever the s
 * result-fields       ... in the BaseInteractions field whose declared element type is that class
 * fr3d-lines          comment / blank lines are skipped, every other line is processed, order kept
 * fr3d-total          malformed lines raise nothing, file nothing, and do not stop the lines after them
+* label-total         a line with two well-formed unit ids files exactly one interaction for EVERY class of label (recognised or
+                      not): an exception on a label path is neither swallowed as 'malformed line' nor does it escape
+* import-history      two imports in one process (sa/procstate.py: module-level objects and default arguments are created once
+                      and live on) give what each gives in a process of its own, and a result already returned does not change
 * dssr-name           match_dssr_name_to_residue on resolvable / model-prefixed / unresolvable / prefix-of-a-name / None ids
 * guard-exact         match_dssr_lw on every member name, non-members, Enum attribute names that are not members, None
 
@@ -25,6 +29,7 @@ from checks.c03 import K
 from sa import world as W
 from sa.blockeval import Unknown
 from sa.model import norm
+from sa.procstate import Process, render
 
 M = "adapter"
 DISPATCH = {"base-pair": ("BasePair", 1), "stacking": ("Stacking", 0), "base-ribose": ("BaseRibose", 0), "base-phosphate": ("BasePhosphate", 0), "other": ("OtherInteraction", None)}
@@ -38,6 +43,12 @@ UNITS = {
     "1EHZ|1|D|A|7|||": ("D", 7, None, "A"),
     "1EHZ|1|E|DG|1001|P|alt|B|sym": ("E", 1001, "B", "DG"),
     "1EHZ|1|F|PSU|5||||6_555": ("F", 5, None, "PSU"),
+    # ids that share all but one field with an id above (decoded after it, in the same process): chain / name / insertion code / number differs
+    "1EHZ|1|B|G|10": ("B", 10, None, "G"),
+    "1EHZ|1|A|C|10": ("A", 10, None, "C"),
+    "1EHZ|1|A|G|10|||X": ("A", 10, "X", "G"),
+    "1EHZ|1|A|G|11": ("A", 11, None, "G"),
+    "2XYZ|2|A|G|10": ("A", 10, None, "G"),
 }
 BAD_UNITS = ["1EHZ|1|A|G", "1EHZ|1|A|G|x", "1EHZ|1|A|G|", "1EHZ|1|A|G|1.5", "G10", ""]
 U1, U2 = "1EHZ|1|A|G|10", "1EHZ|1|B|C|25|||X"
@@ -64,6 +75,55 @@ class Fact:
                 self.chk.robust.discard(rule)
 
 
+def describe(ex: BaseException) -> str:
+    """`ValueError ('cXY' is not a valid LeontisWesthof), raised in unify_classification line 111 by `return (...)`"""
+    txt = str(ex)
+    s = type(ex).__name__ + (f" ({txt[:80]})" if txt else "")
+    o = getattr(ex, "_sa_origin", None)
+    if o:
+        s += f", raised in {o[0]} line {o[1]} by `{o[2]}`"
+    return s
+
+
+def swallowing_handlers(fis, ex: BaseException) -> List[str]:
+    """The except clauses of the given functions that accept an exception of this type (for the message: who made the line vanish)."""
+    import ast
+    import builtins
+
+    out: List[str] = []
+    for fi in fis:
+        for t in ast.walk(fi.node):
+            if not isinstance(t, ast.Try):
+                continue
+            for h in t.handlers:
+                types = [] if h.type is None else ([ast.unparse(x).split(".")[-1] for x in h.type.elts] if isinstance(h.type, ast.Tuple) else [ast.unparse(h.type).split(".")[-1]])
+                hit = h.type is None
+                for name in types:
+                    cls = getattr(builtins, name, None)
+                    if isinstance(cls, type) and isinstance(ex, cls):
+                        hit = True
+                if hit:
+                    out.append(f"`except {ast.unparse(h.type) if h.type is not None else ''}`".replace(" `", "`") + f" of {fi.qualname} (line {h.lineno})")
+    return out
+
+
+def _pic(v: Any) -> str:
+    import json
+
+    try:
+        t = json.dumps(v)
+    except (TypeError, ValueError):
+        t = repr(v)
+    return t if len(t) <= 110 else t[:107] + "..."
+
+
+def _counts(res: Any, exc: Optional[str]) -> str:
+    """[n, n, n, n, n] of a BaseInteractions record, or the exception."""
+    if exc is not None:
+        return f"an exception ({exc})"
+    return str([len(x) for x in res[1:]])
+
+
 def _element_class(annotation: str) -> Optional[str]:
     m = re.fullmatch(r"(?:typing\.)?(?:List|list|Sequence|Tuple|tuple)\[(\w+)(?:, \.\.\.)?\]", annotation)
     return m.group(1) if m else None
@@ -79,14 +139,17 @@ def fr3d_facts(chk, labels: Dict[str, Any]) -> Optional[str]:
     pf = repo.func(M, "parse_fr3d_output")
     uc = repo.func(M, "unify_classification")
     files: Dict[str, str] = {}
-    world = W.build(repo, M, extra={"open": W.opener(files)})
+    proc = Process(repo, M, extra={"open": W.opener(files)})  # module-level objects / default arguments live as long as the process
+    world = proc.world
     bi = repo.cls("common", "BaseInteractions")
     import ast
 
     field_cls = [_element_class(norm(b.annotation)) for b in bi.body if isinstance(b, ast.AnnAssign)]
 
-    def listing(lines: List[str]) -> Tuple[Optional[List[Tuple[int, Any]]], Optional[str]]:
-        """([(position in BaseInteractions, object)], None) or (None, 'ExceptionType: text')"""
+    def run_import(lines: List[str], fresh: bool = True) -> Tuple[Any, Optional[str]]:
+        """(the BaseInteractions record, None) or (None, description of the exception); `fresh`: in a process of its own"""
+        if fresh:
+            proc.restart()
         files.clear()
         files["listing"] = "".join(l if l.endswith("\n") else l + "\n" for l in lines)
         try:
@@ -94,9 +157,16 @@ def fr3d_facts(chk, labels: Dict[str, Any]) -> Optional[str]:
         except Unknown:
             raise
         except Exception as ex:
-            return None, f"{type(ex).__name__}: {ex}"
+            return None, describe(ex)
         if not (isinstance(res, tuple) and res[:1] == ("BaseInteractions",) and len(res) == 1 + len(field_cls) and all(isinstance(x, list) for x in res[1:])):
             raise Unknown(f"parse_fr3d_output does not return BaseInteractions(<{len(field_cls)} lists>): {res!r}"[:160])
+        return res, None
+
+    def listing(lines: List[str]) -> Tuple[Optional[List[Tuple[int, Any]]], Optional[str]]:
+        """([(position in BaseInteractions, object)], None) or (None, description of the exception) - the first import of a process"""
+        res, exc = run_import(lines)
+        if exc is not None:
+            return None, exc
         return [(pos, o) for pos, lst in enumerate(res[1:]) for o in lst], None
 
     obligations: List[Callable[[], None]] = []  # recorded only when the whole reading was possible
@@ -104,15 +174,29 @@ def fr3d_facts(chk, labels: Dict[str, Any]) -> Optional[str]:
     try:
         # ---- unit ids ------------------------------------------------------------------------------------------------------
         bad: Dict[str, str] = {}
-        for u in UNITS:
+        after_others: List[str] = []
+
+        def decode(u: str) -> Any:
             try:
-                got = world["parse_unit_id"](u)
+                return world["parse_unit_id"](u)
             except Unknown:
                 raise
             except Exception as ex:
-                got = f"raises {type(ex).__name__}"
+                return "raises " + describe(ex)
+
+        proc.restart()
+        fresh0 = proc.snapshot()
+        for u in UNITS:  # one after the other in one process ...
+            got = decode(u)
             if got != residue(u):
-                bad[u] = repr(got)
+                bad[u] = got if isinstance(got, str) else repr(got)
+        changed = [n for n, v in proc.snapshot().items() if fresh0.get(n) != v]
+        for u in list(bad):  # ... and what was wrong once more in a process of its own
+            proc.restart()
+            if decode(u) == residue(u):
+                after_others.append(f"`{u}` is decoded as {bad.pop(u)} after the ids {', '.join('`' + x + '`' for x in list(UNITS)[: list(UNITS).index(u)][-3:])} ... were decoded in the same process, and as {residue(u)!r} in a process of its own" + (f" (state the calls left behind: {', '.join(n if n.startswith('default') else 'module-level `' + n + '`' for n in changed)})" if changed else ""))
+        proc.restart()
+        obligations.append(lambda: F.expect(not after_others, "import-history", pu.where, f"{len(UNITS)} unit ids decoded one after the other in one process (among them ids that differ in a single field) are decoded as in a process of their own", "; ".join(after_others[:1]) + ": the answer depends on the ids seen before", K(pu, "unit-history"), found=after_others[:4]))
         accepted = []
         for u in BAD_UNITS:
             try:
@@ -122,18 +206,20 @@ def fr3d_facts(chk, labels: Dict[str, Any]) -> Optional[str]:
                 raise
             except Exception:
                 pass
-        obligations.append(lambda bad=bad: F.expect(not bad, "unit-id", pu.where, f"{len(UNITS)} unit ids (5, 7, 8, 9 fields; empty / non-empty insertion code; negative number) give Residue(None, ResidueAuth(chain = field 3, number = int(field 5), icode = field 8 or None, name = field 4))", "unit ids are decoded wrongly: " + "; ".join(f"`{u}` -> {g} (expected {residue(u)!r})" for u, g in list(bad.items())[:3]), K(pu, "unit-id-eval"), expected={u: repr(residue(u)) for u in list(bad)[:6]}, found=dict(list(bad.items())[:6])))
+        obligations.append(lambda bad=bad: F.expect(not bad, "unit-id", pu.where, f"{len(UNITS)} unit ids (5, 7, 8, 9 fields; empty / non-empty insertion code; negative number; ids differing in one field) give Residue(None, ResidueAuth(chain = field 3, number = int(field 5), icode = field 8 or None, name = field 4))", "unit ids are decoded wrongly: " + "; ".join(f"`{u}` -> {g} (expected {residue(u)!r})" for u, g in list(bad.items())[:3]), K(pu, "unit-id-eval"), expected={u: repr(residue(u)) for u in list(bad)[:6]}, found=dict(list(bad.items())[:6])))
         obligations.append(lambda accepted=accepted: F.expect(not accepted, "unit-id", pu.where, f"{len(BAD_UNITS)} ids without a residue number / with a non-numeric number are rejected", "a unit id without a parsable residue number is accepted: " + "; ".join(accepted[:3]), K(pu, "unit-id-reject"), found=accepted[:6]))
 
         # ---- the categories the normaliser returns ---------------------------------------------------------------------------
         sample: Dict[str, Tuple[str, Any]] = {}
+        label_exc: Dict[str, BaseException] = {}
         for label in labels:
             try:
                 r = world["unify_classification"](label)
             except Unknown:
                 raise
-            except Exception:
-                continue  # reported by normaliser-eval
+            except Exception as ex:
+                label_exc[label] = ex  # what becomes of such a line is decided by label-total below
+                continue
             if isinstance(r, tuple) and len(r) == 2 and isinstance(r[0], str):
                 sample.setdefault(r[0], (label, r[1]))
         if not sample:
@@ -177,6 +263,26 @@ def fr3d_facts(chk, labels: Dict[str, Any]) -> Optional[str]:
                 obligations.append(lambda cat=cat, why_not=why_not: chk.ok("dispatch-branch", pl.where, f"{cat}: {why_not}"))
         obligations.append(lambda: F.expect(not pos_bad, "result-fields", pf.where, "every object reaches the BaseInteractions field whose declared element type is its class (keys written = keys read, arguments in field order)", "; ".join(pos_bad[:3]), K(pf, "fields"), found=pos_bad[:5]))
 
+        # ---- every class of label: exactly one interaction ---------------------------------------------------------------------
+        lost: List[str] = []
+        for label in labels:
+            objs, exc = listing([f"{U1}\t{label}\t{U2}"])
+            shown = f"`{U1}<TAB>{label}<TAB>{U2}`"
+            if exc is not None:
+                lost.append(f"the line {shown} makes the import raise {exc}")
+            elif len(objs) == 1:
+                continue
+            elif objs:
+                lost.append(f"the line {shown} files {len(objs)} interactions: {[o for _, o in objs][:2]!r}"[:300])
+            elif label in label_exc:
+                ex = label_exc[label]
+                who = swallowing_handlers((pl, pf), ex)
+                lost.append(f"the line {shown} files nothing: the label path raises {describe(ex)}" + (f", which {who[0]} takes for a malformed line" if who else ", which the import swallows") + " - the line is dropped instead of being kept (an unrecognised label is an 'other' interaction)")
+            else:
+                r = world["unify_classification"](label)
+                lost.append(f"the line {shown} files nothing (the normaliser returns {r!r})"[:260])
+        obligations.append(lambda: F.expect(not lost, "label-total", pl.where, f"{len(labels)} labels, one per class of the label language (recognised or not): a line with two well-formed unit ids files exactly one interaction; no exception of a label path is swallowed as 'malformed line' or escapes", f"{len(lost)} of {len(labels)} label classes lose their line: " + "; ".join(lost[:2]), K(pl, "label-total"), found=lost[:6]))
+
         # ---- columns, line ends ----------------------------------------------------------------------------------------------
         some = "base-pair" if "base-pair" in sample else sorted(sample)[0]
         lab, cls_val = sample[some]
@@ -200,12 +306,12 @@ def fr3d_facts(chk, labels: Dict[str, Any]) -> Optional[str]:
             raised.append(f"comment / blank lines: {exc}")
         elif objs:
             lines_bad.append(f"a comment or blank line files {[o for _, o in objs][:2]!r}")
-        seq = [(U1, U2), (U2, U1), (U1, U1)]
-        objs, exc = listing(["# head"] + [f"{a}\t{lab}\t{b}" for a, b in seq[:2]] + ["", "# between"] + [f"{seq[2][0]}\t{lab}\t{seq[2][1]}"])
+        seq = [(U1, U2), (U2, U1), (U1, U1), (U1, "1EHZ|1|B|G|10"), ("1EHZ|1|A|G|10|||X", "1EHZ|1|A|C|10")]  # the last ids share all but one field with U1
+        objs, exc = listing(["# head"] + [f"{a}\t{lab}\t{b}" for a, b in seq[:2]] + ["", "# between"] + [f"{a}\t{lab}\t{b}" for a, b in seq[2:]])
         if exc is not None:
-            raised.append(f"three lines: {exc}")
+            raised.append(f"{len(seq)} lines: {exc}")
         elif [tuple(o[1:3]) for _, o in objs if isinstance(o, tuple)] != [(residue(a), residue(b)) for a, b in seq]:
-            lines_bad.append(f"three `{lab}` lines (with a blank and a comment line between them) file {len(objs)} object(s) / not in file order: {[o for _, o in objs][:3]!r}"[:300])
+            lines_bad.append(f"{len(seq)} `{lab}` lines (with a blank and a comment line between them) file {len(objs)} object(s) / not in file order: {[o for _, o in objs][:3]!r}"[:300])
         obligations.append(lambda: F.expect(not lines_bad, "fr3d-lines", pf.where, "comment and blank lines are skipped, every other line is processed, in file order", "; ".join(lines_bad[:2]), K(pf, "lines"), found=lines_bad[:4]))
 
         # ---- malformed lines ---------------------------------------------------------------------------------------------------
@@ -220,6 +326,47 @@ def fr3d_facts(chk, labels: Dict[str, Any]) -> Optional[str]:
                 kept_bad.append(f"`{shown}` followed by a well-formed line files {[o for _, o in objs]!r}"[:260])
         obligations.append(lambda: F.expect(not raised, "fr3d-total", pf.where, f"{len(malformed)} malformed lines (too few columns, blanks for tabs, empty columns, unit ids without / with a non-numeric residue number) and all well-formed ones raise nothing", "the import raises: " + "; ".join(raised[:3]), K(pf, "eval-raises"), found=raised[:6]))
         obligations.append(lambda: F.expect(not kept_bad, "fr3d-lines", pf.where, "a line without two parsable unit ids is skipped: it files nothing and the lines after it are still imported", "; ".join(kept_bad[:2]), K(pf, "malformed"), found=kept_bad[:4]))
+
+        # ---- call histories: one process, two imports -------------------------------------------------------------------------------
+        per_cat_lines = [f"{U1}\t{sample[c][0]}\t{U2}" for c in sorted(sample)]
+        one_line = [f"{U2}\t{lab}\t{U1}"]
+        scenarios = [
+            (f"a listing with one line per category ({len(per_cat_lines)} lines)", per_cat_lines, "a one-line listing", one_line),
+            ("a one-line listing", one_line, "a listing of comments only", ["# nothing here", ""]),
+            (f"a {len(per_cat_lines)}-line listing", per_cat_lines, "the same listing again", per_cat_lines),
+            ("a listing with a malformed and a well-formed line", ["garbage"] + one_line, "a one-line listing", [f"{U1}\t{lab}\t{U1}"]),
+        ]
+        proc.restart()
+        fresh_state = proc.snapshot()
+        hist_bad: List[str] = []
+        hist_found: Dict[str, Any] = {}
+        for what_a, lines_a, what_b, lines_b in scenarios:
+            if hist_bad:
+                break
+            alone, exc0 = run_import(lines_b)
+            alone_pic = render(alone) if exc0 is None else f"raises {exc0}"
+            first, exc1 = run_import(lines_a)  # a process of its own ...
+            first_pic = render(first) if exc1 is None else f"raises {exc1}"
+            first_counts = _counts(first, exc1)
+            left = {n: v for n, v in proc.snapshot().items() if fresh_state.get(n) != v}
+            shared = proc.aliases(first) if exc1 is None else []
+            second, exc2 = run_import(lines_b, fresh=False)  # ... and the next import in the same process
+            second_pic = render(second) if exc2 is None else f"raises {exc2}"
+            first_after = render(first) if exc1 is None else first_pic
+            state_txt = ""
+            if left:
+                n0 = sorted(left)[0]
+                state_txt = f"; the first import leaves {n0 if n0.startswith('default') else 'module-level `' + n0 + '`'} as {_pic(left[n0])} (in a new process: {_pic(fresh_state.get(n0))})"
+            if shared:
+                state_txt += f"; the lists of the result it returned are the very objects held by {shared[0]}"
+            if second_pic != alone_pic:
+                hist_bad.append(f"{what_b} imported after {what_a} in the same process gives {_counts(second, exc2)} interactions per field, in a process of its own {_counts(alone, exc0)}: the result depends on the imports made before" + state_txt)
+                hist_found = {"second import": second_pic, "alone": alone_pic}
+            elif first_after != first_pic:
+                hist_bad.append(f"the BaseInteractions returned for {what_a} changes when {what_b} is imported afterwards ({first_counts} -> {_counts(first, exc1)} interactions per field): a result already handed out is rewritten by a later import" + state_txt)
+                hist_found = {"first result, as returned": first_pic, "after the second import": first_after}
+        proc.restart()
+        obligations.append(lambda: F.expect(not hist_bad, "import-history", pf.where, f"{len(scenarios)} histories of two imports in one process (module-level objects and default arguments created once: {', '.join(proc.carriers()) or 'none that is mutable'}): the second import gives what it gives in a process of its own, and the result of the first is not changed by it", "; ".join(hist_bad[:1]), K(pf, "history"), found=hist_found or None))
     except Unknown as ex:
         return str(ex)
     for ob in obligations:
